@@ -11,7 +11,7 @@ from . import ty as T
 from . import ops
 from .ty import INT, BOOL, CHAR, NONE, SLICE, TStr, TList, TTuple, TOpt, TRec, TRef, TSet, TDict, TEnum, Ty
 from .dsl import CONTRACTS, SPECS, LEMMAS, Spec, Lemma, Contract
-from .engine import (V, K, PyObj, STuple, BoundMethod, Unsupported, Stale, State, Obligation, Normalizer,
+from .engine import (SDict, V, K, PyObj, STuple, BoundMethod, Unsupported, Stale, State, Obligation, Normalizer,
                      PURE_BUILTINS, PURE_METHODS, MUTATING_METHODS, none_v, mk_int, mk_bool, fresh, seq_arr,
                      seq_len, mk_seq, str_const, is_str, load_function, key_of, unwrap_callable, _is_logger_call)
 from .ops import (coerce, to_v, truthy, is_none, val_eq, tuple_get, rec_get, rec_make, forall, exists, infer_ty,
@@ -62,13 +62,18 @@ class FullExecutor(Executor):
             recv = unwrap_opt(recv)
         if isinstance(recv, K) and isinstance(recv.v, str):
             if name == "join":
-                return self.wrap(st, fresh(T.Text, "join"), stmt_level)
+                r = fresh(T.Text, "join")
+                st.assume(seq_len(r) >= 0)
+                return self.wrap(st, r, stmt_level)
             if name == "format":
                 return self.wrap(st, fresh(T.Text, "fmt"), stmt_level)
             hint = next((a.ty for a in args if isinstance(a, V) and is_str(a.ty)), T.StrA)
             recv = coerce(recv, hint)
         if isinstance(recv, STuple):
             raise Unsupported(f"method {name} on tuple")
+        sd = ops.sdict_of(recv)
+        if sd is not None:
+            return self.wrap(st, self.sdict_method(st, sd, name, args, kwargs, node), stmt_level)
         t = recv.ty
         if isinstance(t, TList):
             r = self.list_method(st, recv, name, args, node)
@@ -99,6 +104,30 @@ class FullExecutor(Executor):
         if c is None:
             raise Unsupported(f"no assumed contract for {key}")
         return self.call_contract(st, c, [recv] + args, kwargs, stmt_level, node)
+
+    def sdict_method(self, st, sd, name, args, kwargs, node):
+        rn = self.recv_node(node)
+        if name == "update":
+            items = dict(sd.items)
+            for a in args:
+                o = ops.sdict_of(a)
+                if o is None:
+                    raise Unsupported("dict.update with a non-structural dict")
+                items.update(o.items)
+            items.update(kwargs)
+            self.assign_lvalue(st, rn, SDict(items))
+            return K(None)
+        if name == "get":
+            if not (isinstance(args[0], K) and isinstance(args[0].v, str)):
+                raise Unsupported("dict.get with non-constant key")
+            if args[0].v in sd.items:
+                return sd.items[args[0].v]
+            return args[1] if len(args) > 1 else K(None)
+        if name == "copy":
+            return SDict(sd.items)
+        if name == "keys":
+            return STuple([K(k) for k in sd.items])
+        raise Unsupported(f"dict.{name} on structural dict")
 
     def recv_node(self, node):
         return node.func.value if isinstance(node, ast.Call) and isinstance(node.func, ast.Attribute) else None
@@ -238,8 +267,13 @@ class FullExecutor(Executor):
             key = key_of(fn)
         c = CONTRACTS.get(key)
         if c is None and owner is not None:
-            # method found on a subclass view: try the owner's qualified name
-            c = CONTRACTS.get(f"{fn.__module__}:{fn.__qualname__}")
+            # an override without its own contract: an *assumed* (external) contract on a base class method is
+            # taken to cover every override (that is what the assumption says)
+            for base in inspect.getmro(owner):
+                cand = CONTRACTS.get(f"{base.__module__}:{base.__qualname__}.{fn.__name__}")
+                if cand is not None and cand.kind == "external":
+                    c = cand
+                    break
         if c is None:
             raise Unsupported(f"call to {key}: no contract, not inlined, not in the external table (line {self.cur_line})")
         if c.kind == "inline" or (c.opts.get("inline_at_calls") and c.key != self.c.key):
@@ -288,10 +322,12 @@ class FullExecutor(Executor):
         self.depth += 1
         if self.depth > 12:
             raise Unsupported("inlining depth")
+        self.owner_stack.append(owner)
         try:
             outs = self.exec_block(st, body)
         finally:
             self.depth -= 1
+            self.owner_stack.pop()
         res = []
         for s2, oc in outs:
             s2.env = dict(saved_env) if len(outs) > 1 else saved_env
@@ -300,7 +336,7 @@ class FullExecutor(Executor):
                 res.append((s2, Outcome("value", oc.value if oc.value is not None else K(None))))
             elif oc.kind == "next":
                 res.append((s2, Outcome("value", K(None))))
-            elif oc.kind == "raise":
+            elif oc.kind in ("raise", "unsupported"):
                 res.append((s2, oc))
             else:
                 raise Unsupported("break/continue escaping inlined function")
@@ -585,12 +621,12 @@ class FullExecutor(Executor):
         if _is_logger_call(call):
             return [(st, Outcome("value", K(None)))]
         f = self.eval(st, call.func)
-        if any(isinstance(a, ast.Starred) for a in call.args) or any(k.arg is None for k in call.keywords):
+        if any(isinstance(a, ast.Starred) for a in call.args):
             raise Unsupported("star-args in call")
         if isinstance(f, PyObj) and f.o in (all, any, sum) and len(call.args) == 1 and isinstance(call.args[0], (ast.GeneratorExp, ast.ListComp)):
             return [(st, Outcome("value", self.quantified(st, f.o, call.args[0])))]
         args = [self.eval(st, a) for a in call.args]
-        kwargs = {k.arg: self.eval(st, k.value) for k in call.keywords}
+        kwargs = self.eval_kwargs(st, call.keywords)
         return self.apply(st, f, args, kwargs, call, stmt_level=True)
 
     def s_Assign(self, st, s):
